@@ -15,10 +15,14 @@
 package dispatcher
 
 import (
+	"bufio"
+	"fmt"
 	"log"
+	"net"
 	"net/http"
 	"net/url"
 	"strings"
+	"sync"
 
 	apierrors "k8s.io/apimachinery/pkg/api/errors"
 	"k8s.io/apimachinery/pkg/util/httpstream"
@@ -53,7 +57,19 @@ func NewUpgradeAwareHandler(location *url.URL, transport http.RoundTripper, upgr
 // ServeHTTP handles the proxy request
 func (h *UpgradeAwareHandler) ServeHTTP(w http.ResponseWriter, req *http.Request) {
 	if httpstream.IsUpgradeRequest(req) {
-		h.UpgradeAwareHandler.ServeHTTP(w, req)
+		// a hijacked connection is not bound to the request context, close it
+		// when the context is done, e.g. the endpoint is stopping
+		tw := &hijackTrackingWriter{ResponseWriter: w}
+		served := make(chan struct{})
+		defer close(served)
+		go func() {
+			select {
+			case <-req.Context().Done():
+				tw.closeHijacked()
+			case <-served:
+			}
+		}()
+		h.UpgradeAwareHandler.ServeHTTP(tw, req)
 		return
 	}
 
@@ -116,6 +132,42 @@ func (h *UpgradeAwareHandler) ServeHTTP(w http.ResponseWriter, req *http.Request
 	}
 	proxy.ServeHTTP(w, newReq)
 
+}
+
+// hijackTrackingWriter remembers the connection taken over by Hijack so that it can be closed from outside
+type hijackTrackingWriter struct {
+	http.ResponseWriter
+
+	lock   sync.Mutex
+	conn   net.Conn
+	closed bool
+}
+
+func (w *hijackTrackingWriter) Hijack() (net.Conn, *bufio.ReadWriter, error) {
+	hj, ok := w.ResponseWriter.(http.Hijacker)
+	if !ok {
+		return nil, nil, fmt.Errorf("response writer %T does not implement http.Hijacker", w.ResponseWriter)
+	}
+	conn, rw, err := hj.Hijack()
+	if err != nil {
+		return conn, rw, err
+	}
+	w.lock.Lock()
+	defer w.lock.Unlock()
+	w.conn = conn
+	if w.closed {
+		conn.Close()
+	}
+	return conn, rw, nil
+}
+
+func (w *hijackTrackingWriter) closeHijacked() {
+	w.lock.Lock()
+	defer w.lock.Unlock()
+	w.closed = true
+	if w.conn != nil {
+		w.conn.Close()
+	}
 }
 
 type noSuppressPanicError struct{}
